@@ -78,6 +78,10 @@ def collect_sites(ctx):
                     tag = m
                     break
             if t.kind == "assert":
+                if t.j["msg"].startswith("Overflow(") and bl.idx in tracing_region_blocks(b):
+                    # debug-build overflow check on an argument of a tracing macro (`trace!(removed = before - after)`):
+                    # diagnostics only, absent from release builds; other may-panic constructs in log arguments stay in scope
+                    continue
                 out.append((k, "assert", t.j["msg"], tag, bl.idx, b))
             elif t.kind == "call":
                 nm = cname(t) or dname(t)
@@ -356,6 +360,17 @@ def panic_sites(ctx):
     for tag, n in sorted(auto.items()):
         ctx.ok(R, "C04/panic-sites/macro/" + tag, "", "%d sites generated by %s: %s" % (n, tag, AUTO_MACROS[tag]))
     used = set()
+    # a site that moved into a closure of the same function (a loop body turned into `.map(|x| ..)`) keeps its triage:
+    # when there is no entry for the closure body itself, the entry of the enclosing fn body applies (counts are summed)
+    merged = {}
+    for (fn, kind, detail), where in sorted(counts.items()):
+        f2 = fn
+        while ("%s|%s|%s" % (f2, kind, detail)) not in entries and (f2, kind, detail) not in guards and re.search(r"::\{closure#\d+\}$", f2):
+            f2 = re.sub(r"::\{closure#\d+\}$", "", f2)
+        if ("%s|%s|%s" % (f2, kind, detail)) not in entries and (f2, kind, detail) not in guards:
+            f2 = fn
+        merged.setdefault((f2, kind, detail), []).extend(where)
+    counts = merged
     for (fn, kind, detail), where in sorted(counts.items()):
         key = "%s|%s|%s" % (fn, kind, detail)
         short_key = "C04/panic-sites/" + key.split("::", 1)[1].replace("::{closure#0}", "").replace("*|", "")
@@ -599,7 +614,14 @@ def loops(ctx):
                           reason="loop in %s (%d blocks, calls %s) is neither iterator-bounded nor left on a failed stream read: it could spin after the client's end of stream"
                                  % (b.key, len(comp), sorted(set(x.split("::")[-1] for x in real))[:6]),
                           detail="loop is %s" % ("iterator-bounded" if bounded else "left when a stream read fails (EOF)"))
-    ctx.floor(R, "program loops on the input path", n, 8)
+    # a loop rewritten as internal iteration (`for_each`, `fold`, ..) is still an iteration the rule has seen: those calls are
+    # iterator-bounded by construction and count towards the anchor
+    internal = 0
+    for k, b in sorted(ctx.prog.lib_bodies.items()):
+        if in_scope(k, b):
+            internal += len([1 for bb, t in b.calls() if not b.is_noise(t) and
+                             (cname(t) or dname(t)).split("::")[-1] in ("for_each", "fold", "try_for_each", "try_fold", "for_each_mut")])
+    ctx.floor(R, "program loops (and internal iterations) on the input path", n + internal, 8)
 
 
 def _stays(b, bb, cs):
